@@ -1190,10 +1190,12 @@ class BaseGaussianState(BaseState):
 
             r = np.arccosh(tr / 2) / 2
 
-            if cov[0, 1] == 0.0:
+            # sin(phi) ~ -V_xp and cos(phi) ~ V_pp - V_xx: arctan2 keeps the quadrant of phi
+            # (arcsin alone lost the sign of cos(phi), i.e. returned pi - phi for |phi| > pi/2)
+            if np.allclose(cov, np.identity(2), atol=1e-12, rtol=0):
                 phi = 0
             else:
-                phi = -np.arcsin(2 * cov[0, 1] / np.sqrt((tr - 2) * (tr + 2)))
+                phi = np.arctan2(-2 * cov[0, 1], cov[1, 1] - cov[0, 0])
 
             res.append((r, phi))
 
